@@ -12,6 +12,7 @@
     (the per-stage contracts are C07/C14/C15); that step is validated by the correspondence run
     only - hence "partial" in the manifest. *)
 From CB Require Import Pipe PipeCorrect.
+From CB Require Import ProofLib Spec Chain Programs Inv_for_each.
 From Coq Require Import List Arith.
 Import ListNotations.
 
@@ -33,3 +34,36 @@ Theorem C06_take_stops_unbounded_input : forall p1 n p2 xs base k demands fuel,
   exists pos, run_pipe p xs (Some base) demands fuel = (sem p xs', pos, true) /\ pos <= n.
 Proof. exact run_pipe_take_unbounded. Qed.
 Print Assumptions C06_take_stops_unbounded_input.
+
+(** ** the composed callbag models (Chain.v, Programs.v): for every pipeline of map/filter/scan/take/skip
+    stages of any length over any iterator, wired component to component, in every reachable state in
+    which the environment has the turn *)
+
+(** stage k has delivered the list function of the first k stages applied to what from_iter delivered *)
+Theorem C06_pipeline_functional it stages b N :
+  Forall ustage_ok stages -> net_reach (pipe_net it stages b) N -> pend N = PIdle ->
+  forall k nk n0, k <= length stages ->
+    nth_error (nodes N) k = Some nk -> nth_error (nodes N) 0 = Some n0 ->
+    data_out 0 (ntrace nk) = usem (firstn k stages) (data_out 0 (ntrace n0)).
+Proof. exact (@pipeline_functional it stages b N). Qed.
+Print Assumptions C06_pipeline_functional.
+
+(** with for_each at the end: f has been called on exactly the list function of what from_iter has
+    delivered, in order, and that is the defined prefix of the iterator pulled so far *)
+Theorem C06_pipeline_for_each it stages N :
+  Forall ustage_ok stages -> net_reach (pipe_net it stages true) N -> pend N = PIdle ->
+  forall nf n0,
+    nth_error (nodes N) (S (length stages)) = Some nf -> nth_error (nodes N) 0 = Some n0 ->
+    user_calls (ntrace nf) = usem stages (data_out 0 (ntrace n0)) /\
+    exists pos, map Some (data_out 0 (ntrace n0)) =
+                filter (fun r => match r with Some _ => true | None => false end)
+                       (map it (seq 0 pos)).
+Proof. exact (@pipeline_for_each it stages N). Qed.
+Print Assumptions C06_pipeline_for_each.
+
+(** the premises are satisfiable: a five-item pipeline runs by itself to completion *)
+Theorem C06_pipeline_example :
+  net_all_enabled (pipe_net ex_it ex_stages true) ex_moves_exact = true /\
+  pend (net_run (pipe_net ex_it ex_stages true) ex_moves_exact) = PIdle.
+Proof. exact ex_pipeline_enabled. Qed.
+Print Assumptions C06_pipeline_example.
